@@ -37,9 +37,10 @@ def has_quant(e):
     i = e.get_id()
     r = _hq_cache.get(i)
     if r is None:
-        r = z3.is_quantifier(e) or any(has_quant(c) for c in e.children())
-        _hq_cache[i] = r
-    return r
+        v = z3.is_quantifier(e) or any(has_quant(c) for c in e.children())
+        _hq_cache[i] = (v, e)      # keep e alive: z3 recycles the ids of freed terms
+        return v
+    return r[0]
 
 
 _qfp_cache = {}
@@ -133,6 +134,9 @@ class Interp:
         key = key + "|" + str(len(st.pc)) + "|" + str(len(st.axioms))
         if key in self.feas_cache:
             return self.feas_cache[key]
+        # keep the formulas of this key alive: z3 recycles AST ids of freed terms, which would alias cache keys
+        self._feas_keepalive = getattr(self, "_feas_keepalive", [])
+        self._feas_keepalive.append((list(st.pc), c))
         s0 = z3.Solver()
         s0.set("timeout", 1000)
         for h in st.pc:
@@ -491,8 +495,13 @@ class Interp:
         if isinstance(v, Union):
             out = None
             for c, x in reversed(v.alts):
-                zx = self.to_z(st, x, t)
-                out = zx.e if out is None else z3.If(c, zx.e, out)
+                try:
+                    ze = self.to_z(st, x, t).e
+                except OutsideSubset:
+                    # an alternative that has no image in the target sort (e.g. None where a str is expected): its value is left
+                    # unspecified (a fresh symbol), which can only make obligations harder to prove
+                    ze = st.fresh("unspec", t.z3sort())
+                out = ze if out is None else z3.If(c, ze, out)
             return Z(t, out)
         if isinstance(v, HeapRef):
             o = st.obj(v)
@@ -534,6 +543,11 @@ class Interp:
     def assume_field(self, st, r, cls, f, ft: T, val):
         if ft.kind == "opt":
             isn = smt.ufunc(f"fld.{f}.isnone", Ref, Bool)(r)
+            if isinstance(val, HeapRef) and st.obj(val).kind == "dict" and not st.obj(val).items:
+                val = NONE        # an empty options dict carries no option: modelled like an absent one
+            if isinstance(val, Union):
+                val = Union([(c, (NONE if (isinstance(x, HeapRef) and st.obj(x).kind == "dict" and not st.obj(x).items) else x))
+                             for c, x in val.alts])
             if val is NONE:
                 st.assume(isn)
                 return
